@@ -173,7 +173,7 @@ class Session:
             return False
         raise ValueError(f"unknown step {st!r}")
 
-    async def _xfer(self, verb, arg, payload_len=None, connect="before", salt=0, chunk=None):
+    async def _xfer(self, verb, arg, payload_len=None, connect="before", salt=0, chunk=None, gap=0):
         """Transfer step.  verb in RETR/STOR/APPE/LIST/MLSD.  connect: when the data
         channel is made relative to the command (before|after|never|keep)."""
         p = self.peer
@@ -211,6 +211,8 @@ class Session:
                         for i in range(0, len(data), chunk):
                             dw.write(data[i:i + chunk])
                             await asyncio.wait_for(dw.drain(), REPLY_WAIT)
+                            if gap:
+                                await asyncio.sleep(gap)
                     else:
                         dw.write(data)
                         await asyncio.wait_for(dw.drain(), REPLY_WAIT)
@@ -302,6 +304,8 @@ def corpus(prefix="", tree_has=("f.bin", "dir/g.txt")):
     S["noconnect"] = login + [["epsv"], ["xfer", "RETR", f"{P}/f.bin", None, "never"], ["cmd", "PWD"], ["quit"]]
     S["nologin"] = [["connect"], ["cmd", "PWD"], ["cmd", f"RETR {P}/f.bin"], ["cmd", "PASV"], ["quit"]]
     S["stor_unreachable"] = login + [["epsv"], ["xfer", "STOR", f"{P}/no/such/dir/f", 10], ["cmd", "PWD"], ["quit"]]
+    S["stor_slow"] = login + [["epsv"], ["xfer", "STOR", f"{P}/slow.bin", 20000, "before", 0, 2000, 0.002], ["quit"]]
+    S["retr_huge"] = login + [["pasv"], ["xfer", "RETR", f"{P}/huge.bin"], ["quit"]]
     S["relogin"] = login + [["cmd", f"CWD {P}/dir"], ["login"], ["cmd", "PWD"], ["quit"]]
     return S
 
@@ -315,6 +319,7 @@ def corpus_tree(prefixes=("",)):
         t[f"{p}/f.bin"] = payload_bytes(20000, 3)
         t[f"{p}/dir"] = DIR
         t[f"{p}/dir/g.txt"] = b"0123456789"
+        t[f"{p}/huge.bin"] = payload_bytes(400000, 7)
     return t
 
 
